@@ -890,9 +890,11 @@ where
             Some(token) => token,
             None => return Err(StrError::end_of_entry()),
         };
-        for sym in Symbols::new(token.as_ref().chars()) {
+        let mut symbols = Symbols::new(token.as_ref().chars());
+        for sym in &mut symbols {
             op(sym)?;
         }
+        symbols.ok()?;
         Ok(())
     }
 
@@ -901,9 +903,11 @@ where
         F: FnMut(EntrySymbol) -> Result<(), Self::Error>,
     {
         for token in &mut self.iter {
-            for sym in Symbols::new(token.as_ref().chars()) {
+            let mut symbols = Symbols::new(token.as_ref().chars());
+            for sym in &mut symbols {
                 op(sym.into())?;
             }
+            symbols.ok()?;
             op(EntrySymbol::EndOfToken)?;
         }
         Ok(())
@@ -919,11 +923,13 @@ where
         };
         let mut res = <Octets as FromBuilder>::Builder::empty();
 
-        for sym in Symbols::new(token.as_ref().chars()) {
+        let mut symbols = Symbols::new(token.as_ref().chars());
+        for sym in &mut symbols {
             if let Some(data) = convert.process_symbol(sym)? {
                 res.append_slice(data).map_err(Into::into)?;
             }
         }
+        symbols.ok()?;
 
         if let Some(data) = convert.process_tail()? {
             res.append_slice(data).map_err(Into::into)?;
@@ -938,11 +944,13 @@ where
     ) -> Result<Self::Octets, Self::Error> {
         let mut res = <Octets as FromBuilder>::Builder::empty();
         for token in &mut self.iter {
-            for sym in Symbols::new(token.as_ref().chars()) {
+            let mut symbols = Symbols::new(token.as_ref().chars());
+            for sym in &mut symbols {
                 if let Some(data) = convert.process_symbol(sym.into())? {
                     res.append_slice(data).map_err(Into::into)?;
                 }
             }
+            symbols.ok()?;
         }
         if let Some(data) = convert.process_tail()? {
             res.append_slice(data).map_err(Into::into)?;
@@ -956,12 +964,14 @@ where
             None => return Err(StrError::end_of_entry()),
         };
         let mut res = <Octets as FromBuilder>::Builder::empty();
-        for sym in Symbols::new(token.as_ref().chars()) {
+        let mut symbols = Symbols::new(token.as_ref().chars());
+        for sym in &mut symbols {
             match sym.into_octet() {
                 Ok(ch) => res.append_slice(&[ch]).map_err(Into::into)?,
                 Err(_) => return Err(StrError::custom("bad symbol")),
             }
         }
+        symbols.ok()?;
         Ok(<Octets as FromBuilder>::from_builder(res))
     }
 
@@ -982,8 +992,11 @@ where
             Some(token) => token,
             None => return Err(StrError::end_of_entry()),
         };
-        Name::from_symbols(Symbols::new(token.as_ref().chars()))
-            .map_err(|_| StrError::custom("invalid domain name"))
+        let mut symbols = Symbols::new(token.as_ref().chars());
+        let name = Name::from_symbols(&mut symbols)
+            .map_err(|_| StrError::custom("invalid domain name"))?;
+        symbols.ok()?;
+        Ok(name)
     }
 
     fn scan_charstr(&mut self) -> Result<CharStr<Self::Octets>, Self::Error> {
@@ -993,12 +1006,14 @@ where
         };
         let mut res =
             CharStrBuilder::<<Octets as FromBuilder>::Builder>::new();
-        for sym in Symbols::new(token.as_ref().chars()) {
+        let mut symbols = Symbols::new(token.as_ref().chars());
+        for sym in &mut symbols {
             match sym.into_octet() {
                 Ok(ch) => res.append_slice(&[ch])?,
                 Err(_) => return Err(StrError::custom("bad symbol")),
             }
         }
+        symbols.ok()?;
         Ok(res.finish())
     }
 
@@ -1009,7 +1024,8 @@ where
         };
         let mut res = <Octets as FromBuilder>::Builder::empty();
         let mut buf = [0u8; 4];
-        for sym in Symbols::new(token.as_ref().chars()) {
+        let mut symbols = Symbols::new(token.as_ref().chars());
+        for sym in &mut symbols {
             match sym.into_char() {
                 Ok(ch) => res
                     .append_slice(ch.encode_utf8(&mut buf).as_bytes())
@@ -1017,6 +1033,7 @@ where
                 Err(_) => return Err(StrError::custom("bad symbol")),
             }
         }
+        symbols.ok()?;
         Ok(Str::from_utf8(<Octets as FromBuilder>::from_builder(res))
             .unwrap())
     }
@@ -1193,6 +1210,12 @@ impl From<BadSymbol> for std::io::Error {
 /// A simple scanner error that just wraps a static str.
 #[derive(Debug)]
 pub struct StrError(&'static str);
+
+impl From<SymbolCharsError> for StrError {
+    fn from(err: SymbolCharsError) -> Self {
+        StrError(err.as_str())
+    }
+}
 
 impl ScannerError for StrError {
     fn custom(msg: &'static str) -> Self {
